@@ -4,7 +4,7 @@ import z3
 
 from .sorts import *
 from .engine import (OutOfSubset, PathEnd, PyExc, ReturnSig, BreakSig, ContinueSig, Const, FuncVal, Builtin,
-                     LambdaVal, ClassVal, Frame, exc_isa)
+                     LambdaVal, ClassVal, Frame, exc_isa, MatchVal)
 from .source import Contract
 from .ops import lift, liftable, is_val
 
@@ -389,6 +389,8 @@ class CallsMixin:
             return v
         if kind == 'dict':
             has = z3.Select(z3.Select(self.field('dict.has'), a), idx)
+            if not self.spec_mode:
+                self.instantiate(idx)        # facts quantified over all keys, at the key actually looked up
             if not self.spec_mode and not self.branch(has):
                 raise PyExc('KeyError', self.snippet(node), implicit='key')
             return z3.simplify(z3.Select(z3.Select(self.field('dict.val'), a), idx))
@@ -535,6 +537,10 @@ class CallsMixin:
             raise OutOfSubset('attribute of function')
         if isinstance(obj, ClassVal):
             raise OutOfSubset('class attribute ' + self.snippet(node))
+        if isinstance(obj, MatchVal):
+            if name == 'groups':
+                return Builtin('match.groups', obj)
+            raise OutOfSubset('match attribute ' + name)
         if isinstance(obj, IterVal):
             raise OutOfSubset('attribute of iterator')
         obj = self.val(obj)
@@ -545,6 +551,8 @@ class CallsMixin:
             if name in STR_METHODS:
                 return Builtin('str.' + name, obj)
             raise PyExc('AttributeError', self.snippet(node), implicit='attr')
+        if t != 'VRef' and self.spec_mode:
+            return self.fresh('undef')
         if t == 'VNone':
             raise PyExc('AttributeError', 'None.%s in %s' % (name, self.snippet(node)), implicit='none-attr')
         if t != 'VRef':
@@ -720,6 +728,8 @@ class CallsMixin:
             return self.call_lambda(fv, args, kwargs, node)
         if isinstance(fv, Const):
             return self.call_const(fv, args, kwargs, node)
+        if is_val(fv):
+            return self.call_partial(fv, args, kwargs, node)
         raise OutOfSubset('call of %r' % (fv,))
 
     def bind_args(self, fn_args, args, kwargs, self_val=None, node=None):
@@ -879,7 +889,7 @@ class CallsMixin:
             self.old = _Old(pre[0], pre[1], env)
             try:
                 for cl in c.of('ensures'):
-                    self.assume(self.ev_spec(cl.expr))
+                    self.assume_spec(cl.expr)
             finally:
                 self.old = saved_old
             return result
@@ -1260,6 +1270,19 @@ class CallsMixin:
         j = self.as_int(self.ev(node.args[1]))
         return z3.Select(z3.Select(self.field('dict.keys'), Value.a(d)), j)
 
+    def sp_ascii_str(self, node):
+        v = self.val(self.ev(node.args[0]))
+        return z3.And(Value.is_VStr(v), z3.InRe(Value.s(v), z3.Star(z3.Range(chr(0), chr(127)))))
+
+    def sp_re_fullmatch(self, node):
+        """re_fullmatch(PATTERN_CONSTANT, s): s is in the language of the anchored pattern of the running module."""
+        from . import regex
+        pat = self.ev(node.args[0])
+        if not isinstance(pat, Const) or not hasattr(pat.py, 'pattern'):
+            raise OutOfSubset('re_fullmatch needs a compiled pattern constant')
+        v = self.val(self.ev(node.args[1]))
+        return z3.InRe(Value.s(v), regex.full(pat.py.pattern))
+
     def sp_memo_clean(self, node):
         """memo_clean("relpath::func"): the lru_cache table of func holds no entry computed under another table."""
         key = ast.literal_eval(node.args[0])
@@ -1512,9 +1535,6 @@ class CallsMixin:
             return self.str_to_int(Value.s(x), node)
         raise PyExc('TypeError', 'int() of ' + t, implicit='type')
 
-    def str_to_int(self, s, node):
-        raise OutOfSubset('int(str)')
-
     GEN_EXC = {0: 'StopIteration', 1: 'DecoderError'}
 
     def bi_next(self, b, args, kwargs, node):
@@ -1644,9 +1664,94 @@ class CallsMixin:
         names = sorted(self.eng.repo.funcs)
         return z3.IntVal(names.index(key))
 
+    PARTIAL_FIELDS = ('element', 'is_aromatic', 'isotope', 'chirality', 'h_count', 'charge')
+
+    def make_partial(self, args, kwargs, node):
+        """functools.partial(Atom, **kw): a heap object of class `partial` holding the bound keywords (the only use
+        of partial in the library; any other target class is out of subset)."""
+        if not (args and isinstance(args[0], ClassVal) and args[0].name == 'Atom' and len(args) == 1):
+            raise OutOfSubset('functools.partial of something else than Atom(**kwargs)')
+        a = self.new_addr('partial')
+        for f in self.PARTIAL_FIELDS:
+            has = f in kwargs
+            self.heap['attr:pkhas_' + f] = z3.Store(self.field('attr:pkhas_' + f), a, VBool(has))
+            self.heap['attr:pk_' + f] = z3.Store(self.field('attr:pk_' + f), a,
+                                                 self.val(kwargs[f]) if has else VNone)
+        for k in kwargs:
+            if k not in self.PARTIAL_FIELDS:
+                raise PyExc('TypeError', 'unexpected keyword ' + k, implicit='type')
+        return VRef(a)
+
+    def call_partial(self, p, args, kwargs, node):
+        """Calling a partial object: Atom(**bound keywords) - a FRESH atom per call."""
+        p = self.val(p)
+        t = static_tag(p) or self.tagcache.get(p.sexpr()) or self.tag(p)
+        if t != 'VRef' or self.ref_kind(p, ['partial']) != 'partial':
+            raise PyExc('TypeError', 'object is not callable: ' + self.snippet(node), implicit='type')
+        if args or kwargs:
+            raise OutOfSubset('partial called with arguments')
+        pa = Value.a(p)
+        defaults = {'isotope': VNone, 'chirality': VNone, 'h_count': VNone, 'charge': VInt(0)}
+        kw = {}
+        for f in self.PARTIAL_FIELDS:
+            has = Value.b(z3.Select(self.field('attr:pkhas_' + f), pa))
+            val = z3.Select(self.field('attr:pk_' + f), pa)
+            if f in defaults:
+                kw[f] = z3.simplify(z3.If(has, val, defaults[f]))
+            else:
+                if not self.branch(has):
+                    raise PyExc('TypeError', 'missing argument ' + f, implicit='type')
+                kw[f] = z3.simplify(val)
+        return self.construct(ClassVal('Atom'), [], kw, node)
+
+    def bi_match_groups(self, b, args, kwargs, node):
+        return b.self_val.groups
+
+    def regex_match(self, pattern, s, node):
+        """pattern.match(s) for a fully anchored pattern: None, or a match whose groups are SOME decomposition of s
+        into the pattern's top-level pieces (a sound over-approximation of the greedy choice CPython makes)."""
+        from . import regex
+        try:
+            items, start, end = regex.parse(pattern)
+        except regex.RegexError as e:
+            raise OutOfSubset('regex: %s' % e)
+        if not (start and end):
+            raise OutOfSubset('regex not anchored at both ends')
+        full = regex._concat([r for _, r in items])
+        if not self.branch(z3.InRe(s, full)):
+            return VNone
+        pieces, groups = [], []
+        for is_group, r in items:
+            g = self.fresh('grp', S)
+            self.assume(z3.InRe(g, r))
+            pieces.append(g)
+            if is_group:
+                groups.append(VStr(g))
+        self.assume(s == (z3.Concat(pieces) if len(pieces) > 1 else pieces[0]))
+        return MatchVal(VTup(groups))
+
+    def str_to_int(self, s, node):
+        """int(s) for a str: ValueError unless s is a non-empty ASCII digit string (callers are restricted to ASCII
+        input of bounded length by their contracts: Unicode digits and the 4300-digit limit are known findings)."""
+        ok = z3.InRe(s, z3.Plus(z3.Range('0', '9')))
+        if not self.branch(ok):
+            raise PyExc('ValueError', 'int() of non-numeral: ' + self.snippet(node), implicit='int')
+        n = z3.StrToInt(s)
+        self.assume(n >= 0)
+        return VInt(n)
+
     def call_const(self, fv, args, kwargs, node):
         import functools
+        import re as _re
         py = fv.py
+        if py is functools.partial:
+            return self.make_partial(args, kwargs, node)
+        if isinstance(getattr(py, '__self__', None), _re.Pattern) and getattr(py, '__name__', '') == 'match':
+            sv = self.val(args[0])
+            t = static_tag(sv) or self.tagcache.get(sv.sexpr()) or self.tag(sv)
+            if t != 'VStr':
+                raise PyExc('TypeError', 'match on non-str', implicit='type')
+            return self.regex_match(py.__self__.pattern, Value.s(sv), node)
         if isinstance(py, functools.partial):
             raise OutOfSubset('call of partial')
         owner = getattr(py, '__self__', None)
